@@ -15,17 +15,17 @@ import (
 // Sys couples one router under test with the table model that mirrors the
 // calls the engine itself issued.
 type Sys struct {
-	Env    *mon.Env
-	R      *mux.Router[*mon.Hnd]
-	ICS    gen.ICSet
-	Trace  bool
-	Lock   bool
-	TraceH *mon.Hnd
+	Env      *mon.Env
+	R        *mux.Router[*mon.Hnd]
+	ICS      gen.ICSet
+	Trace    bool
+	Lock     bool
+	TraceH   *mon.Hnd
 	NotFound *mon.Hnd
-	Live   map[string]*Entry
-	pcache map[string]ref.Pattern
-	Step   int
-	Gen    int
+	Live     map[string]*Entry
+	pcache   map[string]ref.Pattern
+	Step     int
+	Gen      int
 }
 
 // Entry is one live pattern of the model.
@@ -142,7 +142,9 @@ type Via struct {
 	Cut2 int
 }
 
-func (v Via) String() string { return [...]string{"router", "prefix", "resource", "prefix.prefix"}[v.Kind] }
+func (v Via) String() string {
+	return [...]string{"router", "prefix", "resource", "prefix.prefix"}[v.Kind]
+}
 
 // Handle issues the call on the router (possibly through a facade) and mirrors an accepted call in the model.
 func (s *Sys) Handle(pattern string, methods []string, via Via, mws ...*mon.MW) (accepted bool, pv any, h *mon.Hnd) {
